@@ -882,6 +882,27 @@ pub fn run(args: &Args) {
         })
         .collect()
     };
+    // the same characters split differently between pattern and flags, next to each other in one file (`/a{u/` and
+    // `/a{/u`): a key made of pattern and flags run together confuses the two
+    let mut seq = seq;
+    if expect.is_none() && !seq.is_empty() && crng.chance(1, 4) {
+      let at = crng.below(seq.len());
+      let (p, f) = seq[at].clone();
+      let all: Vec<char> = p.chars().chain(f.chars()).collect();
+      let tail = all.iter().rev().take_while(|c| "dgimsuy".contains(**c)).count();
+      let cuts: Vec<usize> = (0..=tail).filter(|k| *k != f.chars().count()).collect();
+      if !cuts.is_empty() {
+        let k = cuts[crng.below(cuts.len())];
+        let n = all.len();
+        let other = (all[..n - k].iter().collect::<String>(), all[n - k..].iter().collect::<String>());
+        feats.push("resplit-neighbour");
+        if crng.chance(1, 2) {
+          seq.insert(at + 1, other);
+        } else {
+          seq.insert(at, other);
+        }
+      }
+    }
     feats.sort();
     feats.dedup();
     run_one(&mut out, &linter, &mut crng, &seq, &feats, case_no, with_panics, expect.as_deref());
